@@ -43,7 +43,9 @@ Process == /\ Len(hist) < MaxOps
            /\ hist' = Append(hist, [op |-> "process", text |-> "", ok |-> TRUE])
            /\ expect' = Append(expect, Ids(goods))
            /\ UNCHANGED goods
-Query == /\ Len(hist) < MaxOps /\ hist # <<>> /\ hist[Len(hist)].op = "process"
+\* (a read at any time once something is loaded - also between the last load and the next run, on trees nobody has
+\* processed yet: what a later run yields does not depend on it)
+Query == /\ Len(hist) < MaxOps /\ goods # <<>> /\ (hist[Len(hist)].op # "query")
          /\ hist' = Append(hist, [op |-> "query", text |-> "", ok |-> TRUE])
          /\ UNCHANGED <<goods, expect>>
 \* GetModule(name of a loaded module) processes the set and hands out that module's tree
